@@ -80,6 +80,10 @@ func docsOf(c *chk.Ctx, set *plug.Set, b *abs.Built, s *abs.Schema, allFormats b
 		}
 		svc := strings.TrimSuffix(f.Name, ".openapi.json")
 		names = append(names, svc)
+		if d := os.Getenv("VERIF_DUMP_DOCS"); d != "" {
+			_ = os.MkdirAll(d, 0o755)
+			_ = os.WriteFile(filepath.Join(d, fmt.Sprintf("%s-%d.json", svc, len(f.Content))), []byte(f.Content), 0o644)
+		}
 		tree, err := jsonv.DocTree([]byte(f.Content))
 		if err != nil {
 			return nil, nil, "emitted JSON document does not parse: " + err.Error()
